@@ -233,3 +233,68 @@ def deref_canon(prog, fn, expr) -> str:
     return canon(deref_expr(prog, fn, expr))
 
 
+ALIAS_CALLS = {"np.asarray", "np.asanyarray", "np.atleast_1d", "np.atleast_2d", "np.ravel", "np.squeeze", "np.reshape"}
+ALIAS_METHODS = {"reshape", "ravel", "squeeze", "view"}
+
+
+def helper_purity(ctx, prog, rule_id: str):
+    """Effect rule: a module-level package function does not write into an array it was handed (subscript / augmented
+    store through the parameter or a view of it - np.asarray, reshape ... do not copy - or a ufunc ``out=`` aimed at it).
+    The callers keep using their arrays afterwards: the bounds they compare a rounded copy with, the incumbent, the
+    candidate matrix.  State dictionaries (stores with a string-literal key) are the intended output channel and exempt."""
+    ctx.rule(rule_id, "package helpers do not modify the arrays they are handed (no in-place store or ufunc out= through a parameter or a view of it)", floor=5)
+    for fn in prog.functions():
+        if fn.cls is not None:
+            continue
+        params = {p for p in fn.params}
+        if not params:
+            continue
+        alias = set(params)
+
+        def is_alias(e):
+            if isinstance(e, ast.Name):
+                return e.id in alias
+            if isinstance(e, ast.Call) and call_name(e) in ALIAS_CALLS and e.args:
+                return is_alias(e.args[0])
+            if isinstance(e, ast.Call) and isinstance(e.func, ast.Attribute) and e.func.attr in ALIAS_METHODS:
+                return is_alias(e.func.value)
+            if isinstance(e, ast.Attribute) and e.attr == "T":
+                return is_alias(e.value)
+            return False
+
+        # flow-sensitive enough for helpers: walk the statements in order; a name re-bound to a fresh value stops aliasing
+        bad = []
+        for st in ast.walk(fn.node):
+            pass
+        order = sorted((n for n in ast.walk(fn.node) if isinstance(n, (ast.Assign, ast.AugAssign, ast.Expr, ast.Return)) and prog.function_of(n) is fn), key=lambda n: (n.lineno, n.col_offset))
+        for st in order:
+            for c in ast.walk(st):
+                if isinstance(c, ast.Call):
+                    for kw_ in c.keywords:
+                        if kw_.arg == "out" and is_alias(kw_.value):
+                            bad.append((st, f"{call_name(c) or canon(c.func)}(..., out={canon(kw_.value)})"))
+            if isinstance(st, ast.Assign):
+                for t in st.targets:
+                    b = t
+                    while isinstance(b, ast.Subscript):
+                        b = b.value
+                    if isinstance(t, ast.Subscript) and isinstance(b, ast.Name) and b.id in alias:
+                        key = t.slice
+                        if not (isinstance(key, ast.Constant) and isinstance(key.value, str)):
+                            bad.append((st, f"{canon(t)[:40]} = ..."))
+                    elif isinstance(t, ast.Name):
+                        if is_alias(st.value):
+                            alias.add(t.id)
+                        else:
+                            alias.discard(t.id)
+            elif isinstance(st, ast.AugAssign):
+                b = st.target
+                while isinstance(b, ast.Subscript):
+                    b = b.value
+                if isinstance(b, ast.Name) and b.id in alias and not (isinstance(st.target, ast.Subscript) and isinstance(st.target.slice, ast.Constant) and isinstance(st.target.slice.value, str)):
+                    bad.append((st, f"{canon(st.target)[:40]} op= ..."))
+        if bad:
+            for st, what in bad[:3]:
+                ctx.fail(fn, st, f"{fn.short}() writes into an array it received ({what}): its callers keep using that array (bounds, incumbent, candidate matrix) and now see it modified", construct=f"in-place write through a parameter: {what[:50]}")
+        else:
+            ctx.ok(fn, fn.node, f"{fn.short} leaves its array arguments untouched")
